@@ -26,7 +26,7 @@ from lib.core import Inconclusive, VERIF, sh
 
 SPEC = "ClientMux"
 C08_INV = ["ReplyMatches", "IdNonZero", "IdsDistinct", "OnePacketOneCaller"]
-C08_CLASSES = ["inorder", "permuted", "dup", "dupburst", "foreign", "late", "mixed", "garbage", "close", "giveup"]
+C08_CLASSES = ["inorder", "permuted", "dup", "dupburst", "foreign", "late", "mixed", "garbage", "close", "giveup", "sequel"]
 HOOKS = ["mux.reg.begin", "mux.registered", "mux.unreg.begin", "mux.unregistered", "mux.recv.begin", "mux.recv.lookup",
          "mux.recv.delivered", "mux.recv.gaveup", "mux.recv.bad", "client.send.dequeued", "client.recv.pkg"]
 
@@ -281,7 +281,13 @@ def run(ctx):
         failures, st, _ = validate(ctx, traces, C08_INV, "c08", groups=ctx.pick(3, 6))
         ctx.log("traces validated: %d rejected" % len(failures))
         bad = {id(t) for t, _ in failures}
-        selftest = selftests_c08(ctx, [t for t in traces if id(t) not in bad])
+        try:
+            selftest = selftests_c08(ctx, [t for t in traces if id(t) not in bad])
+        except Inconclusive as e:
+            # a tree that breaks the property can also upset the self-test's base trace: the verdict on the real runs comes first
+            if not (failures or sets["ZERO"] or sets["DUP"]):
+                raise
+            selftest = {"skipped": str(e)[:200]}
         ctx.log("self-tests done")
         mc = collect_mc(futs)
         ctx.log("model checking done")
